@@ -28,7 +28,7 @@ COMPONENTS = {"real": ["setigen.voltage.quantization (RealQuantizer, ComplexQuan
 ASSUMPTIONS = ["a 'constant' input is an array of one repeated value (zero variance by definition, whatever its computed std)",
                "|x| kept within 1e-100..1e140 so that sums of squares neither overflow nor underflow",
                "+-1 tolerated iff the reference pre-rounding value is within 1e-9 of a rounding boundary"]
-PROBES = ["real_dtype_input_to_complex_quantiser", "refresh_skipped", "refresh_taken_later_call", "zero_variance_input", "custom_std_used",
+PROBES = ["integer_parameters_as_numpy_scalars", "real_dtype_input_to_complex_quantiser", "refresh_skipped", "refresh_taken_later_call", "zero_variance_input", "custom_std_used",
           "ncalc_shorter_than_input", "clipped_values", "two_d_input", "period_nonpositive", "rejected_call"]
 
 KINDS = ["gauss", "gauss", "gauss", "const", "two", "ramp", "huge", "tiny", "len1", "2d", "pedestal"]
@@ -73,7 +73,9 @@ def generate(rng, tier):
         quants.append({"cls": rng.choice(["real", "complex"]), "bits": rng.choice([2, 3, 4, 4, 5, 6, 7, 8, 8]),
                        "tmean": rng.choice([0, 0, 0, 1.5, -3, 0.5]), "fwhm": rng.choice([32, 32, 8, 3, 6.0, 100]),
                        "period": rng.choice([-3, -1, 0, 1, 1, 2, 3, 5]),
-                       "ncalc": rng.choice([1, 2, 5, 16, 60, 10000])})
+                       "ncalc": rng.choice([1, 2, 5, 16, 60, 10000]),
+                       # the same numbers as numpy integers (what arithmetic on arrays hands back)
+                       "ntype": rng.choice(["int", "int", "int", "int64", "int32"])})
     ops = []
     for _ in range(rng.randint(2, 12)):
         q = rng.randrange(nq)
@@ -199,8 +201,11 @@ def execute(sc, ctx):
     import setigen.voltage.quantization as qz
     objs = []
     for spec in sc["quants"]:
-        kw = dict(target_mean=spec["tmean"], target_fwhm=spec["fwhm"], num_bits=spec["bits"],
-                  stats_calc_period=spec["period"], stats_calc_num_samples=spec["ncalc"])
+        cast = {"int": int, "int64": np.int64, "int32": np.int32}[spec.get("ntype", "int")]
+        kw = dict(target_mean=spec["tmean"], target_fwhm=spec["fwhm"], num_bits=cast(spec["bits"]),
+                  stats_calc_period=cast(spec["period"]), stats_calc_num_samples=cast(spec["ncalc"]))
+        if spec.get("ntype", "int") != "int":
+            ctx.hit("integer_parameters_as_numpy_scalars")
         tstd = spec["fwhm"] / mv.FWHM
         if spec["cls"] == "real":
             o = qz.RealQuantizer(**kw)
